@@ -84,6 +84,9 @@ def af_pool(tier: str, rng: random.Random):
                         pass
     rng.shuffle(synth)
     pool += synth[: (60 if tier == 'quick' else 400)]
+    # shapes at the edge of "nothing but zero": bounds within one quantum of zero
+    for (pb, nb, exp) in ((R(1), R(-1), 0), (R(1), R(0), 0), (R(0), R(-1), 0), (R(0.5), R(-0.5), -1), (R(2), R(-2), 1), (R(1), R(-1), 1)):
+        pool.append((f'A(inf,{exp},{pb},{nb})', AbstractFormat(float('inf'), exp, pb, neg_bound=nb)))
     F = Fraction
     sets = [{F(0)}, {NEG_ZERO}, {F(1)}, {F(0), F(1), F(-1)}, {F(1, 2), F(3)}, {Special.POS_INF}, {Special.NAN, F(2)},
             {NEG_ZERO, F(0)}, {F(-2), F(5, 4)}, {Special.NEG_INF, F(1)}, {F(2)}]
@@ -145,6 +148,16 @@ def record_abstract(tier: str, rng: random.Random):
                 stats['result-out-of-domain'] += 1
             except Exception as e:      # noqa: BLE001
                 stats[f'{name}:{type(e).__name__}'] += 1
+    # format(): the concrete Format an abstract one materializes to is a superset
+    for la, a in pool:
+        if isinstance(a, AbstractFormat):
+            try:
+                f = a.format()
+                emit({'t': 'le', 'a': js[la], 'b': fmt_json(f, relax=False), 'res': True}, a=la, how='AbstractFormat.format()', result=str(f))
+            except OutOfDomain:
+                stats['result-out-of-domain'] += 1
+            except Exception as e:      # noqa: BLE001  -- no Format expresses it: a refusal
+                stats[f'format():{type(e).__name__}'] += 1
     # round_is_identity, from_format
     ctxs = small_contexts(tier)
     for c in ctxs:
@@ -228,6 +241,34 @@ def hand_while(x: fp.Real, y: fp.Real, xs: list[fp.Real], k: fp.Real):
             s = s + s
             i = i + 1
     return (s, i)''',
+    'hand_refine': '''@fp.fpy
+def hand_refine(x: fp.Real, y: fp.Real, xs: list[fp.Real], k: fp.Real):
+    a = 0
+    b = 0
+    c = 1
+    d = 0
+    with fp.REAL:
+        if 2 < x:
+            a = x * 1
+        if not (-2 <= y):
+            b = y + 0
+        if x > 1:
+            c = x - 0
+        if 1 >= y:
+            d = y * 1
+        if 1 < x < 3:
+            e = x + 0
+        else:
+            e = 0
+    return (a, b, c, d, e)''',
+    'hand_clamp': '''@fp.fpy
+def hand_clamp(x: fp.Real, y: fp.Real, xs: list[fp.Real], k: fp.Real):
+    a = min(max(x, -1), 1)
+    b = max(min(y, 2), 0)
+    with fp.REAL:
+        c = a + b
+        d = min(max(x, 0), 1) * 1
+    return (a, b, c, d)''',
     'hand_abs': '''@fp.fpy
 def hand_abs(x: fp.Real, y: fp.Real, xs: list[fp.Real], k: fp.Real):
     a = abs(x)
@@ -303,9 +344,10 @@ def record_programs(job):
         stats['rejected_by_front_end'] += len(rej)
         progs += [(n, f, srcs[n]) for n, f in funcs.items()]
         for (name, f, src) in progs:
-            for trial in range(2 if tier == 'quick' else 4):
-                actx = rng.choice(ARGCTX)
-                scope = rng.choice(SCOPES)
+            hand = name in HAND
+            for trial in range(len(SCOPES) if hand else (2 if tier == 'quick' else 4)):
+                actx = ARGCTX[trial % 3] if hand else rng.choice(ARGCTX)
+                scope = SCOPES[trial] if hand else rng.choice(SCOPES)
                 afmt = actx.format()
                 kset = SetFormat(frozenset(Fraction(i) for i in (1, 2, 3)))
                 fnf = FunctionFormat(scope, (afmt, afmt, ListFormat(afmt), kset), None)
